@@ -8,6 +8,7 @@ import MotoModel.Proofs.DiskRuns
 import MotoModel.Proofs.DiskPlace
 import MotoModel.Proofs.DiskSections
 import MotoModel.Proofs.DiskPerSide
+import MotoModel.Proofs.DiskOrder
 namespace Moto.C10
 open Moto Moto.Disk
 
@@ -229,5 +230,39 @@ theorem sections_count_match_image (w : Tape.World) (verbose : Bool) (img : Imag
     ∃ st, performCore w verbose img srcs = .ok st ∧ ImgOk st.img
       ∧ ∀ k, k < 4 → announcedOn k (storedOn 0 (batchEvents w srcs img)) = newOn img st.img k :=
   batch_count w verbose img srcs himg hs
+
+/-- **C10 (files are stored on the current side in the order given — one file)**: on a side whose live
+    catalog entries are exactly the first `n`, a stored file takes entry `n`, right after the files stored
+    before it (the live entries are then the first `n + 1`); a refused file leaves the first `n`. -/
+theorem stored_file_is_appended {sd : Side} {bat : List Nat} {own : Nat → List Nat} (inv : SideInv sd bat own) (n : Nat) (hn : n ≤ 112)
+    (hseq : Seq n sd) (content : Bytes) (name ext : Str) (kind flag : Nat) (hname : ∀ c ∈ name, c ≠ 0xFF) :
+    (∃ sd', writeFile sd content name ext kind flag = .ok sd' ∧ n < 112 ∧ Seq (n + 1) sd'
+        ∧ slotData sd' n = newRecord name ext kind flag ((chosen bat (reqBlocks content.length)).getD 0 0) (lastBytesOf content.length))
+    ∨ (∃ sd' msg, writeFile sd content name ext kind flag = .raised (.valueError msg) sd' ∧ Seq n sd') :=
+  writeFile_appends inv n hn hseq content name ext kind flag hname
+
+/-- **C10 (… the whole `--create`)**: whatever the batch (any sources, sizes, markers, refusals, retries on
+    the following sides), on every side of the image `--create` writes the live catalog entries are exactly
+    the first `n` entries: no hole, every file appended after those stored before it on that side — catalog
+    order, which is the order of `--list` and `--extract`, is the order in which the files were stored. -/
+theorem created_catalogs_follow_storage_order (fl : Flavour) (w : Tape.World) (verbose : Bool) (archive : Str) (srcs : List Str)
+    (hs : ∀ src ∈ srcs, CleanSrc src) :
+    ∃ img, ImgOk img ∧ (create fl w verbose archive srcs).writes = [(archive, save fl img)]
+      ∧ ∀ k, k < 4 → ∃ n, n ≤ 112 ∧ Seq n (img.getD k []) := by
+  obtain ⟨st, hst, hok, hp⟩ := create_prefix w verbose srcs hs
+  refine ⟨st.img, hok, ?_, hp⟩
+  unfold create performOn; rw [if_neg (by simp), hst]
+
+/-- **C10 (… and every later `--add`)**: adding any batch to the archive of an image whose catalogs have no
+    hole (a created image, an image produced by earlier additions) yields an image whose catalogs have no
+    hole: the files added are appended, on each side, after everything stored before. -/
+theorem added_files_are_appended (fl : Flavour) (w : Tape.World) (verbose : Bool) (archive : Str) (img : Image) (srcs : List Str)
+    (himg : ImgOk img) (hp : ∀ k, k < 4 → ∃ n, n ≤ 112 ∧ Seq n (img.getD k [])) (hs : ∀ src ∈ srcs, CleanSrc src) :
+    ∃ img', ImgOk img' ∧ (add fl w verbose archive (save fl img) srcs).writes = [(archive, save fl img')]
+      ∧ ∀ k, k < 4 → ∃ n, n ≤ 112 ∧ Seq n (img'.getD k []) := by
+  obtain ⟨st, hst, hok, hp'⟩ := batch_prefix w verbose img srcs himg hp hs
+  rw [add_on_saved fl w verbose archive img srcs himg]
+  refine ⟨st.img, hok, ?_, hp'⟩
+  unfold performOn; rw [if_neg (by rw [himg.1]; omega), hst]
 
 end Moto.C10
